@@ -52,19 +52,26 @@ def capacity (h : H) (k : Kind) (n : Int) : Int :=
 /-- an early `return 0` with psf->error = e (the VALIDATE macro had reset it to 0) -/
 def fail (h : H) (e : Int) : ROut := { ret := 0, h := { h with err := e } }
 
+/-- `whole_frames (psf, count, channels)`: the count rounded down to whole frames -/
+def wholeItems (count ch : Int) : Int := if ch ≤ 1 ∨ Int.tmod count ch = 0 then count else count - Int.tmod count ch
+/-- … and whether `last_op` stays SFM_READ (it is cleared when the count had to be rounded) -/
+def wholeOk (count ch : Int) : Bool := decide (ch ≤ 1 ∨ Int.tmod count ch = 0)
+
 /-- after the codec call: position bookkeeping, clamping to sf.frames, zero fill of the tail -/
 def readTail (h : H) (k : Kind) (n : Int) (codecRet : Int) : ROut :=
   let cap := capacity h k n
   let count := codecRet
   -- `if (count <= (psf->sf.frames - psf->read_current) * psf->sf.channels)`  (item counts are compared,
   -- so the clamp also catches an excess smaller than one frame)
+  -- since 230abc1 the count handed back is rounded down to whole frames (`whole_frames`: a codec that stopped inside a frame —
+  -- a short I/O transfer — no longer makes the call return part of a frame), and `last_op` is cleared then so that the next call seeks
   if count ≤ (h.frames - h.rc) * h.ch then
-    { ret := (match k with | .items => count | .frames => Int.tdiv count h.ch),
-      asked := some cap, h := { h with rc := h.rc + Int.tdiv count h.ch, lastOpRead := true, err := 0 } }
+    { ret := (match k with | .items => wholeItems count h.ch | .frames => Int.tdiv count h.ch),
+      asked := some cap, h := { h with rc := h.rc + Int.tdiv count h.ch, lastOpRead := wholeOk count h.ch, err := 0 } }
   else
     let c2 := (h.frames - h.rc) * h.ch
-    { ret := (match k with | .items => c2 | .frames => Int.tdiv c2 h.ch),
-      asked := some cap, zeroed := [(c2, cap - c2)], h := { h with rc := h.frames, lastOpRead := true, err := 0 } }
+    { ret := (match k with | .items => wholeItems c2 h.ch | .frames => Int.tdiv c2 h.ch),
+      asked := some cap, zeroed := [(c2, cap - c2)], h := { h with rc := h.frames, lastOpRead := wholeOk c2 h.ch, err := 0 } }
 
 /-- sf_read_X / sf_readf_X.  `seekRet`: result of psf->seek when last_op was not a read;
     `codecRet`: what psf->read_X returned. -/
